@@ -8,7 +8,7 @@ TEXT = ("scope_errors_exact: a pair (s, c) is reported iff s is declared shared,
         "service is reachable, else shared); scope_keyword_mapping (keyword -> compiled scope -> emitted setter, regenerated template table); shared_once and "
         "contextual_once_per_bag over the runtime model. Build-time rule: all graphs over <= 3 services with every scope assignment (thorough) compared with the "
         "implementation and with an independent Python oracle. Run time: the runtime model and the probe are run on the same histories of Get/GetInContext (same "
-        "context, different contexts, none) and instance identity (serial numbers) is compared and judged directly. The dependency notion is the documented one: graph_faithful (C07) relates the built graph to ConfigDep (own arguments incl. calls and fields, carriers of requested tags, dependencies of decorators of carried tags), scope_errors_exact and default_scope_documented are stated over it, and reachability needs no totality assumption (reach_total). Histories include the generated getters (a getter call is judged as the Get it stands for), arg-less decorated services and multi-file distributions.")
+        "context, different contexts, none) and instance identity (serial numbers) is compared and judged directly. The dependency notion is the documented one: graph_faithful (C07) relates the built graph to ConfigDep (own arguments incl. calls and fields, carriers of requested tags, dependencies of decorators of carried tags), scope_errors_exact and default_scope_documented are stated over it, and reachability needs no totality assumption (reach_total). Histories include the generated getters (a getter call is judged as the Get it stands for), arg-less decorated services and multi-file distributions. Whole histories (runtime model, any length, any mix of Get / GetInContext / GetTaggedBy / GetTaggedByInContext / GetParam / attached contexts, acyclicity as a rank): shared_once_per_container, shared_first_get_caches, contextual_once_per_context, contexts_are_separate, plain_get_has_fresh_bag — by one induction over the mutually recursive get / resolveArg / resolveArgs / getTagged; the driver executes its scripts through the same step function (Model/History.stepOp).")
 TECHNIQUE = "Lean 4 theorem (exact characterisation of the scope validator through graph reachability) + exhaustive small graphs x scope assignments + runtime model vs probe on Get/GetInContext histories"
 LEAN_PROPS = ["C05"]
 TRUSTED = ["gontainer-helpers/v3 scope resolution and caches are modelled (Model/Runtime.lean), tied by level B", "graph_faithful (model graph = documented relation): checked against the Python oracle"]
